@@ -58,7 +58,7 @@ META = {
         "sections": ["Arith.Min", "Arith.Max"],
         "rule": "exhaustive: every flat collection of 1..2 segments over [0,4]^2 (both orientations, also nested) and every triple over [0,3]; random: 1..6 regions x 1..4 segments, n<=14 (3000 quick / 200000 thorough); Minimize, InvertLinear, InvertCircular each. All cases non-trivial; distinct case lines.",
         "assumptions": ["sort.Sort on BySegment is modelled as insertion sort: after flattening, ties under BySegment.Less are identical values, so every correct sort returns the same slice (theorem C09_order_independent proves uniqueness of the sorted permutation)",
-                        "InvertCircular is tied by correspondence + oracle; its theorem is not yet stated"],
+                        "InvertCircular: C09_invert_circular_partition (exact cover together with the minimized input, for regions that cover something)"],
     },
     "C18": {
         "sections": ["Tables.complement", "Tables.transcribe", "Tables.match"],
